@@ -177,6 +177,7 @@ def check (pid : String) (j : Json) : Except String Verdict := do
   let mut lastAcc : List (RType × String) := RType.all.map (fun rt => (rt, (prev.ver rt).1))
   let mut evicted : List (RType × String) := []           -- C19: names removed and unsubscribed by a sweep
   let mut current : List (RType × String × String) := []   -- C19: the control plane's latest value per name
+  let mut lastNonce : List (RType × String) := []          -- C19: nonce of the latest response per type (no reconnects there)
   for st in steps.toList do
     idx := idx + 1
     let kind := jStrD st "o" "?"
@@ -238,7 +239,7 @@ def check (pid : String) (j : Json) : Except String Verdict := do
       r := r.compare o oj uni what
       if o.get != some expected then r := r.fail s!"{what}: lookup {rtStr rt}/{n}: model {expected}, impl {o.get}"
       if pid = "C19" && evicted.contains (rt, n) then
-        r := r.specFail (c19relookup prev o rt n sendOk)
+        r := r.specFail (c19relookup prev o rt n sendOk ((lastNonce.find? (fun e => e.1 = rt)).map (·.2)))
         match o.get, current.find? (fun e => e.1 = rt && e.2.1 = n) with
         | some g, some (_, _, v) =>
           if g.startsWith "val:" && g != s!"val:{v}" then
@@ -463,6 +464,7 @@ def check (pid : String) (j : Json) : Except String Verdict := do
           idleSince := idleSince ++ [(rt, e.1, now)]
       -- (an entry the control plane removes keeps its access record: it is still subscribed and ages like any other)
       if pid = "C19" then
+        lastNonce := (lastNonce.filter (fun e => e.1 ≠ rt)) ++ [(rt, nonce)]
         r := r.specFail (c19crossed prev o evicted)
         for sl in resp.slots do
           match sl with
